@@ -98,6 +98,9 @@ func oblServes(o *Obligation, fc *FuncContract, id string) bool {
 		return false
 	}
 	if safetyKinds[o.Kind] {
+		if len(fc.SafetyKinds) > 0 && !contains(fc.SafetyKinds, o.Kind) {
+			return false
+		}
 		for _, s := range fc.Safety {
 			if s == id {
 				return true
